@@ -192,7 +192,7 @@ struct Names {
 
 impl C17 {
     fn gen_cfg() -> Cfg {
-        Cfg { cardano_pct: 30, max_txs: 2, ..Default::default() }
+        Cfg { cardano_pct: 30, max_txs: 2, dup_tx_names: true, ..Default::default() }
     }
 
     fn one(&self, ctx: &mut Ctx, idx: u64, rng: &mut Rng, collide: bool) {
